@@ -102,6 +102,8 @@ def run_case(case):
                 viol.append({"key": "gate:%s" % cls, "detail": {"pstar": pstar, "extra": extra, "missing": missing, "lastPhaseRan": r_g.lastPhaseRan}})
             if r_g.violations != bool(err_phases):
                 viol.append({"key": "gate:exit-flag-disagrees-with-error-violations", "detail": {"flag": r_g.violations, "error_phases": sorted(set(err_phases))}})
+            if r_ap.violations != bool(err_phases):
+                viol.append({"key": "all-phases:exit-flag-disagrees-with-error-violations", "detail": {"flag": r_ap.violations, "error_phases": sorted(set(err_phases))}})
             if any(v[0] in skip for v in v_all) or any(v[0] in skip for v in v_g):
                 viol.append({"key": "skip:violation-of-skipped-phase-reported", "detail": {"skip": skip}})
             # prefix property, stated directly
